@@ -770,3 +770,52 @@ def root_path(fn, e, depth=0, stop=()):
         if sub is not None:
             return (sub[0], sub[1] + fields)
     return (l[0], fields)
+
+
+def decision_paths(body):
+    """Paths of a (small, loop-free) function body: list of (conds, value) with conds = [(cond expr, bool)]
+    and value = the returned / tail expression (None for unit).  If / else-if chains, early returns,
+    let statements and plain blocks only; anything else makes the path 'unknown' (value = {'k': '?'})."""
+    out = []
+
+    def block(b, conds, k):
+        """k(conds) continues after the block with the block's value"""
+        def stmts(i, conds):
+            if i == len(b["stmts"]):
+                if "tail" in b:
+                    return expr(b["tail"], conds, k)
+                return k(conds, None)
+            st = b["stmts"][i]
+            e = st.get("init") if st["k"] == "Let" else st.get("e")
+            if e is None:
+                return stmts(i + 1, conds)
+            return expr(e, conds, lambda c2, v: stmts(i + 1, c2))
+        return stmts(0, conds)
+
+    def expr(e, conds, k):
+        e0 = e
+        e = peel(e)
+        kind = e.get("k")
+        if kind == "BlockExpr":
+            return block(e["block"], conds, k)
+        if kind == "Block":
+            return block(e, conds, k)
+        if kind == "Ret":
+            if "x" in e:
+                return expr(e["x"], conds, lambda c2, v: out.append((c2, v)))
+            out.append((conds, None))
+            return
+        if kind == "If":
+            c = e["cond"]
+            expr(e["then"], conds + [(c, True)], k)
+            if "else" in e:
+                expr(e["else"], conds + [(c, False)], k)
+            else:
+                k(conds + [(c, False)], None)
+            return
+        if kind in ("Loop", "Match"):
+            return k(conds, {"k": "?", "why": kind, "sp": e.get("sp")})
+        return k(conds, e)
+
+    expr(body, [], lambda c, v: out.append((c, v)))
+    return out
